@@ -127,15 +127,21 @@ func (backupManager *BackupManager) DoNativeBackup() error {
 		return err
 	}
 	backupFilename := backupManager.backupLocation + string(os.PathSeparator) + "datahub-backup.kv"
-	var file *os.File
-	if backupManager.fileExists(backupFilename) {
-		file, _ = os.Open(backupFilename)
-	} else {
-		file, _ = os.Create(backupFilename)
+	// every run appends the entries written since the previous run: the file has to be opened
+	// for appending (os.Open gives a read-only handle, all later runs wrote nothing)
+	file, err := os.OpenFile(backupFilename, os.O_WRONLY|os.O_APPEND|os.O_CREATE, 0o600)
+	if err != nil {
+		return err
 	}
 	defer file.Close()
-	since, _ := backupManager.store.database.Backup(file, backupManager.lastID)
-	backupManager.lastID = since
+	since, err := backupManager.store.database.Backup(file, backupManager.lastID)
+	if err != nil {
+		return err
+	}
+	if since > backupManager.lastID {
+		// Backup reports 0 when nothing was written since the last run
+		backupManager.lastID = since
+	}
 
 	// store last id
 	return backupManager.StoreLastID()
@@ -153,7 +159,7 @@ func (backupManager *BackupManager) StoreLastID() error {
 }
 
 func (backupManager *BackupManager) LoadLastID() (uint64, error) {
-	lastIDFilename := backupManager.backupLocation + string(os.PathSeparator) + "datahub-backupManager.lastseen"
+	lastIDFilename := backupManager.backupLocation + string(os.PathSeparator) + "datahub-backup.lastseen"
 	file, err := os.Open(lastIDFilename)
 	if err != nil {
 		return 0, nil
